@@ -11,7 +11,8 @@ RULE = ("case = random schema with a subscription root x %d subscription documen
         "literal and variable, root key selected twice / through an inline fragment) x event sequences of length 0-8 whose "
         "payloads are well-formed root objects, nulls, or objects provoking field errors (injected faults inside one event's "
         "subtree), consumed (a) sequentially and (b) two streams + a query interleaved under the controlled scheduler with "
-        "gated sources; 30%% of the schemas carry a pass-through SCHEMA directive (on_schema_subscription / "
+        "gated sources; 40%% of the streams are opened with an initial_value (it is the parent of the source, never the root "
+        "of an event's response); invalid requests incl. the same root field under two aliases; 30%% of the schemas carry a pass-through SCHEMA directive (on_schema_subscription / "
         "on_schema_execution forwarding positionally or by keyword). The recording source notes start / each event / finish. Oracle: number of yielded responses = number "
         "of events, in order; response i = reference execution of the selection with event i as root value (data exactly, "
         "C02 error accounting); the source receives the reference-coerced arguments, is started exactly once and runs to "
